@@ -330,8 +330,9 @@ class TaskScenario(ScenarioData):
 
         # Normalize allocations
         alloc_data = allocations
-        if isinstance(allocations, list) and len(allocations) == 1 and isinstance(allocations[0], dict):
-            alloc_data = allocations[0]
+        if isinstance(allocations, list) and any(isinstance(a, dict) for a in allocations):
+            # One or more allocate statements with options (alternatives): a single structure
+            alloc_data = self._mergeAllocations(allocations)
 
         if isinstance(alloc_data, dict):
             resource_ids = alloc_data.get("resources", [])
@@ -440,8 +441,9 @@ class TaskScenario(ScenarioData):
 
         # Normalize allocations
         alloc_data = allocations
-        if allocations and isinstance(allocations, list) and len(allocations) == 1 and isinstance(allocations[0], dict):
-            alloc_data = allocations[0]
+        if isinstance(allocations, list) and any(isinstance(a, dict) for a in allocations):
+            # One or more allocate statements with options (alternatives): a single structure
+            alloc_data = self._mergeAllocations(allocations)
 
         resource = None
         if alloc_data:
@@ -1063,8 +1065,9 @@ class TaskScenario(ScenarioData):
 
         # Normalize allocations
         alloc_data = allocations
-        if isinstance(allocations, list) and len(allocations) == 1 and isinstance(allocations[0], dict):
-            alloc_data = allocations[0]
+        if isinstance(allocations, list) and any(isinstance(a, dict) for a in allocations):
+            # One or more allocate statements with options (alternatives): a single structure
+            alloc_data = self._mergeAllocations(allocations)
 
         if isinstance(alloc_data, dict):
             resource_ids = alloc_data.get("resources", [])
@@ -1121,8 +1124,9 @@ class TaskScenario(ScenarioData):
 
         # Normalize allocations
         alloc_data = allocations
-        if isinstance(allocations, list) and len(allocations) == 1 and isinstance(allocations[0], dict):
-            alloc_data = allocations[0]
+        if isinstance(allocations, list) and any(isinstance(a, dict) for a in allocations):
+            # One or more allocate statements with options (alternatives): a single structure
+            alloc_data = self._mergeAllocations(allocations)
 
         if isinstance(alloc_data, dict):
             resource_ids = alloc_data.get("resources", [])
@@ -1371,9 +1375,9 @@ class TaskScenario(ScenarioData):
 
         # Normalize allocations - can be list of strings, list containing dict, or dict
         alloc_data = allocations
-        if isinstance(allocations, list) and len(allocations) == 1 and isinstance(allocations[0], dict):
-            # List containing a single dict with options
-            alloc_data = allocations[0]
+        if isinstance(allocations, list) and any(isinstance(a, dict) for a in allocations):
+            # One or more allocate statements with options (alternatives): a single structure
+            alloc_data = self._mergeAllocations(allocations)
 
         if isinstance(alloc_data, dict):
             # New format with options: {'resources': [...], 'options': {...}}
@@ -1666,6 +1670,24 @@ class TaskScenario(ScenarioData):
         if n_start and n_end:
             self.scheduled = True
             self.property[("scheduled", self.scenarioIdx)] = True
+
+    @staticmethod
+    def _mergeAllocations(allocations: list[Any]) -> dict[str, Any]:
+        """Several 'allocate' statements of one task, at least one of them with options, as one
+        structure: the resources named first are wanted together, every alternative stands for
+        itself (as if they had been written in one statement)."""
+        merged: dict[str, Any] = {"resources": [], "options": {"alternative": []}}
+        for entry in allocations:
+            if isinstance(entry, dict):
+                merged["resources"].extend(entry.get("resources", []))
+                options = entry.get("options", {}) or {}
+                merged["options"]["alternative"].extend(options.get("alternative", []))
+                for key, value in options.items():
+                    if key != "alternative":
+                        merged["options"].setdefault(key, value)
+            else:
+                merged["resources"].append(entry)
+        return merged
 
     def _getResourcesForTask(self) -> list[Any]:
         """
